@@ -26,6 +26,7 @@ SetListeners(p, kind, sets) ==
           [] kind = "range" -> [st EXCEPT ![p].rangesets = sets]
           [] kind = "var" -> [st EXCEPT ![p].varsets = sets]
           [] kind = "fn" -> [st EXCEPT ![p].fnsets = sets]
+          [] kind = "raises" -> [st EXCEPT ![p] = [x \in (DOMAIN @) \cup {"raises"} |-> IF x = "raises" THEN sets ELSE @[x]]]
 
 EnvOf(p) == st[p]
 (* evaluation does not change any binding *)
